@@ -243,15 +243,31 @@ def verus_unit(unit, tier, seed):
         rv = run_verus(vpath, multiple_errors=20)
         if front_end_failed(rv):
             raise Undecided(f"{unit}: vacuity run crashed: {rv['stderr'][-400:]}")
-        hit = set()
-        for d in rv["diags"]:
-            for s in d.get("spans", []):
-                hit.add(s["line_start"])
-        for p in info["vac_probes"]:
-            if p.get("file", "unit_vac.rs") != vfile:
-                continue
+        def hits_of(run):
+            h = set()
+            for d in run["diags"]:
+                for s in d.get("spans", []):
+                    h.add(s["line_start"])
+            return h
+        hit = hits_of(rv)
+        mine = [p for p in info["vac_probes"] if p.get("file", "unit_vac.rs") == vfile]
+        if any(p["line"] not in hit for p in mine):
+            # a probe that did not fail may just have been cut off by the resource limit of its function: retry once with a
+            # larger limit; if the function still runs out, the probe is inconclusive (reported, never counted as vacuous)
+            rv2 = run_verus(vpath, multiple_errors=20, rlimit=120)
+            if not front_end_failed(rv2):
+                hit |= hits_of(rv2)
+                rv["wall"] += rv2["wall"]
+                rv["diags"] += rv2["diags"]
+        out_lines = [s_["line_start"] for d in rv["diags"] if is_resource_out(d) for s_ in d.get("spans", [])]
+        for p in mine:
             if p["line"] in hit:
                 vac["failed_as_expected"] += 1
+                continue
+            fnname = p["what"].rsplit("::", 1)[0]
+            rng = [(f["emitted_first"], f["emitted_last"] + 2) for f in info["functions"] if f["fn"] == fnname]
+            if rng and any(rng[0][0] <= ln <= rng[0][1] + 40 for ln in out_lines):
+                vac.setdefault("inconclusive", []).append(p["what"])
             else:
                 vac["vacuous"].append(p["what"])
         res["vac_wall"] = res.get("vac_wall", 0) + rv["wall"]
